@@ -25,17 +25,28 @@ Theorem C07_fuel_linear : forall body,
   body_fuel body <= fold_right (fun t n => 2 * String.length t + 1 + n) 0 body.
 Proof. exact body_fuel_linear. Qed.
 
-(** Only documented errors.  Guard [c07_guard]: the parser can be constructed
-    (named tasks, distinct names/aliases) and arguments are well-formed (named;
-    counters start from a number; list arguments are not value-optional; an
-    argument called "help" is not int-valued).  Int-valued arguments are allowed
-    (401bc73) and an initial context is NOT required (e36c9e6), so the theorem
-    applies to the real core context and to bare [Parser(contexts)]
-    ([C07_guard_inhabited], [C07_no_initial_cluster_is_parse_error]).  Then the
-    outcome is a result or ParseError: AttributeError, KeyError, TypeError,
-    ValueError and fluidity's InvalidTransition are unreachable.  The guard is
-    static well-formedness of the contexts only -- what Collection.to_contexts
-    and Program.initial_context always produce -- hence the name keeps _partial. *)
+(** Only documented errors.  Guard [c07_guard], every conjunct of it:
+      - the parser can be constructed (named tasks, distinct names/aliases);
+      - every argument has a name;
+      - counters start from a number.  NOT benign: a counter with a None / str
+        default makes "-v" raise TypeError -- finding F-C07e,
+        [C07_only_parse_errors_refuted_counter];
+      - an argument called "help" has a type that cannot reject a text (the
+        per-task --help special case assigns the task's NAME to the initial
+        context's help argument outside the guarded assignment).  Benign: the
+        only initial contexts invoke builds are Program's, whose help argument
+        is a str; tasks' own "help" parameters are never the target.
+    Arguments of ANY type are allowed: int (401bc73) and every other callable
+    type, whose rejections -- ValueError or TypeError -- are ParseErrors
+    (f5d4a34; [KOther] carries the type's behaviour as an oracle).  Value-optional
+    list arguments are allowed (the invariant tracks that a list argument's
+    raw_value is never None; this was a guard conjunct before).  An initial
+    context is NOT required (e36c9e6).  So the theorem applies to the real core
+    context and to bare [Parser(contexts)] ([C07_guard_inhabited],
+    [C07_no_initial_cluster_is_parse_error]).  Then the outcome is a result or
+    ParseError: AttributeError, KeyError, TypeError, ValueError and fluidity's
+    InvalidTransition are unreachable.  The name keeps _partial because of the
+    counter conjunct. *)
 Theorem C07_only_parse_errors_partial : forall cs init ign argv,
   c07_guard cs init = true ->
   match parser_parse cs init ign argv with Ok _ => True | Err e => e = EParse end.
@@ -48,6 +59,37 @@ Theorem C07_int_value_is_parse_error :
   parser_parse small_cs (Some core_ctx) false ["t"; "--num=abc"] = Err EParse /\
   parser_parse [] (Some core_ctx) true ["-T"; "abc"] = Err EParse.
 Proof. exact int_value_is_parse_error. Qed.
+
+(** F-C07f is repaired (f5d4a34): a text rejected by the argument's own type is
+    a ParseError whichever exception the type raises -- float: ValueError,
+    bytes: TypeError; a text the type converts is delivered converted. *)
+Theorem C07_other_kind_value_is_parse_error :
+  c07_guard [ctx_o] (Some core_ctx) = true /\
+  parser_parse [ctx_o] (Some core_ctx) false ["o"; "--ratio"; "abc"] = Err EParse /\
+  parser_parse [ctx_o] (Some core_ctx) false ["o"; "-d"; "ab"] = Err EParse /\
+  spec_ok [ctx_o] (Some core_ctx) false ["o"; "-d"; "ab"] (model_parse [ctx_o] ICore false ["o"; "-d"; "ab"]) = true /\
+  exists r, parser_parse [ctx_o] (Some core_ctx) false ["o"; "-r"; "2.5"] = Ok r /\
+            map obs_of_ctx (tl (pr_ctxs r)) = [(Some "o", [("ratio", AStr "<float 2.5>"); ("data", AStr "<bytes b'x'>")])].
+Proof. exact other_kind_value_is_parse_error. Qed.
+
+(** Historical record (F-C07f, fixed): before f5d4a34 the guarded assignment
+    ([checked_old]) caught ValueError only. *)
+Theorem C07_type_error_historical_refuted :
+  exists m f, set_arg_value m f (IStr "ab") true = Err EType /\
+              checked_old (set_arg_value m f (IStr "ab") true) = Err EType /\
+              checked (set_arg_value m f (IStr "ab") true) = Err EParse.
+Proof. exact type_error_historical_refuted. Qed.
+
+(** F-C07e: "never any other exception type" is FALSE for a counter that does
+    not start from a number: [@task(incrementable=['v']) def t(c, v=None)],
+    "inv t -v" raises TypeError.  The guard of the theorem above excludes
+    exactly this. *)
+Theorem C07_only_parse_errors_refuted_counter :
+  c07_guard [ctx_badcounter] (Some core_ctx) = false /\
+  parser_parse [ctx_badcounter] (Some core_ctx) false ["t"; "-v"] = Err EType /\
+  spec_ok [ctx_badcounter] (Some core_ctx) false ["t"; "-v"]
+          (model_parse [ctx_badcounter] ICore false ["t"; "-v"]) = false.
+Proof. exact refuted_counter. Qed.
 
 (** F-C07b is repaired (e36c9e6): no initial context + a short-flag cluster. *)
 Theorem C07_no_initial_cluster_is_parse_error :
